@@ -5,9 +5,14 @@ package sctp
 // SHUTDOWN-COMPLETE enumerated up to k faults, plus stale shutdown chunks injected in every state.
 
 import (
+	"bufio"
 	"context"
+	"encoding/binary"
+	"encoding/json"
 	"fmt"
 	"math/rand"
+	"os"
+	"strings"
 	"testing"
 	"time"
 )
@@ -186,5 +191,252 @@ func init() {
 				}
 			}
 		}
+	}
+}
+
+// ---------------------------------------------------------------------------------------------
+// shut-replay: behaviours of spec/Shutdown.tla replayed on real associations. Control packets are matched
+// by (sender, kind, ordinal), SACKs by (sender, cumulative TSN ack) -- the real receiver delays and merges
+// acknowledgements, so the driver lets up to 250 ms pass when the SACK the model delivers has not been
+// written yet --, DATA by (sender, ordinal of the DATA packet). A behaviour the real code cannot follow
+// ends as drift (not a verdict); afterwards everything is delivered loss-free and the C08 monitors of
+// ObsTrace judge the history.
+
+type vfShOp struct {
+	Op   string `json:"op"`
+	E    int    `json:"e"`
+	From int    `json:"from"`
+	K    string `json:"k"`
+	N    int    `json:"n"`
+	Cum  int    `json:"cum"`
+}
+
+func init() {
+	vfModes["shut-replay"] = func(t *testing.T) {
+		shard, nshards := vfEnvInt("VF_SHARD", 0), vfEnvInt("VF_NSHARDS", 1)
+		na, nb := vfEnvInt("VF_NA", 2), vfEnvInt("VF_NB", 1)
+		f, err := os.Open(os.Getenv("VF_IN"))
+		if err != nil {
+			t.Fatal(err)
+		}
+		defer f.Close()
+		tr, err := vfNewTrace(vfOut(fmt.Sprintf("sr-%d.ndjson", shard)))
+		if err != nil {
+			t.Fatal(err)
+		}
+		defer tr.close()
+		sc := bufio.NewScanner(f)
+		sc.Buffer(make([]byte, 1<<20), 1<<26)
+		k, drifts, followed := 0, 0, 0
+		for sc.Scan() {
+			line := strings.TrimSpace(sc.Text())
+			if line == "" {
+				continue
+			}
+			k++
+			if k%nshards != shard {
+				continue
+			}
+			var ops []vfShOp
+			if err := json.Unmarshal([]byte(line), &ops); err != nil {
+				t.Fatalf("bad behaviour: %v", err)
+			}
+			il := k%2 == 0
+			label := fmt.Sprintf("shut-replay-il%v#%d", il, k)
+			hung := vfBubble(t, label, func() {
+				w := vfNewWorld(vfWorldOpt{Label: label, Trace: tr, A: vfEpCfg{InitTSN: uint32(k * 6007), Tag: 0xA2, IL: il}, B: vfEpCfg{InitTSN: uint32(0) - uint32(k%6), Tag: 0xB2, IL: il, Server: true}})
+				if !w.vfConnect() {
+					w.finish(true)
+					return
+				}
+				w.open(0, 1, 51)
+				w.open(1, 2, 51)
+				p := int(w.ep[0].a.maxPayloadSize)
+				for i := 0; i < na; i++ {
+					w.write(0, 1, p, 51) // one chunk per packet: nothing can be bundled with it
+				}
+				for i := 0; i < nb; i++ {
+					w.write(1, 2, p, 53)
+				}
+				ord := map[int]int{}
+				cnt := map[[2]any]int{}
+				kindOf := func(raw []byte) string {
+					kd := vfFirstKind(raw)
+					if kd == "idata" {
+						kd = "data"
+					}
+					return kd
+				}
+				scan := func() {
+					for _, pk := range w.pending(-1) {
+						if _, ok := ord[pk.id]; ok {
+							continue
+						}
+						kd := kindOf(pk.raw)
+						cnt[[2]any{pk.from, kd}]++
+						ord[pk.id] = cnt[[2]any{pk.from, kd}]
+					}
+				}
+				sackCum := func(pk *vfPkt) int {
+					d := vfDecodePacket(pk.raw)
+					for _, c := range d.Chunks {
+						if c.Typ == 3 && len(c.Val) >= 4 {
+							// relative to the data sender's (= packet receiver's) initial TSN, 1-based like the model
+							return int(int32(binary.BigEndian.Uint32(c.Val[0:4])-w.ep[1-pk.from].cfg.InitTSN)) + 1
+						}
+					}
+					return -1
+				}
+				find := func(op vfShOp) *vfPkt {
+					for try := 0; try < 3; try++ {
+						scan()
+						for _, pk := range w.pending(op.From) {
+							kd := kindOf(pk.raw)
+							if kd != op.K {
+								continue
+							}
+							if kd == "sack" {
+								if sackCum(pk) == op.Cum {
+									return pk
+								}
+								continue
+							}
+							if ord[pk.id] == op.N {
+								return pk
+							}
+						}
+						if op.K != "sack" {
+							return nil
+						}
+						w.sleep(125 * time.Millisecond) // a delayed acknowledgement may still be due
+					}
+					return nil
+				}
+				drift := ""
+				called := false
+				sackSeen := map[int]int{}
+			loop:
+				for _, op := range ops {
+					w.accept(0)
+					w.accept(1)
+					w.drainReads()
+					switch op.Op {
+					case "call":
+						called = true
+						a := w.ep[op.E].a
+						if a.getState() != established {
+							drift = "call: not established"
+							break loop
+						}
+						w.apiAsync(op.E, "shutdown", func() error { return a.Shutdown(context.Background()) })
+					case "deliver", "drop":
+						pk := find(op)
+						if pk == nil && op.K == "sack" {
+							// the real receiver merges acknowledgements: a SACK with a higher cumulative ack stands in
+							// for the one the model delivers; one the model still has in flight may be gone already
+							if op.Cum <= sackSeen[op.From] || op.Op == "drop" {
+								continue
+							}
+							for _, q := range w.pending(op.From) {
+								if kindOf(q.raw) == "sack" && sackCum(q) >= op.Cum {
+									pk = q
+									break
+								}
+							}
+						}
+						if pk == nil {
+							drift = fmt.Sprintf("no %s #%d/cum %d from %d", op.K, op.N, op.Cum, op.From)
+							break loop
+						}
+						if op.K == "sack" && op.Op == "deliver" && sackCum(pk) > sackSeen[op.From] {
+							sackSeen[op.From] = sackCum(pk)
+						}
+						if op.Op == "drop" {
+							w.drop(pk.id)
+						} else {
+							w.deliver(pk.id)
+						}
+					case "t2", "t3":
+						kinds := []string{"shutdown", "shutdownack"}
+						if op.Op == "t3" {
+							kinds = []string{"data"}
+						}
+						total := func() int {
+							scan()
+							n := 0
+							for _, kd := range kinds {
+								n += cnt[[2]any{op.E, kd}]
+							}
+							return n
+						}
+						before := total()
+						for i := 0; i < 30 && total() == before; i++ {
+							w.tick(5 * time.Second)
+						}
+						if total() == before {
+							drift = op.Op + ": the timer did not re-send"
+							break loop
+						}
+					case "connclose":
+						if !w.ep[op.E].conn.isClosed() {
+							w.tr.emit(map[string]any{"ev": "api", "ep": op.E, "op": "connfail", "t": w.now()})
+							w.ep[op.E].conn.Close()
+							w.quiesce()
+						}
+					}
+				}
+				if drift != "" {
+					drifts++
+					w.tr.emit(map[string]any{"ev": "note", "what": "replay-drift: " + drift, "t": w.now()})
+				} else {
+					followed++
+				}
+				// settle: loss-free FIFO delivery; the survivor's transport closes 10 s after the peer has gone
+				start := time.Now()
+				for time.Since(start) < 400*time.Second {
+					w.accept(0)
+					w.accept(1)
+					w.drainReads()
+					if pend := w.pending(-1); len(pend) > 0 {
+						w.deliver(pend[0].id)
+						continue
+					}
+					c0, c1 := w.ep[0].conn.isClosed(), w.ep[1].conn.isClosed()
+					if c0 && c1 {
+						break
+					}
+					if (c0 || c1) && time.Since(start) > 10*time.Second {
+						for e := 0; e < 2; e++ {
+							if !w.ep[e].conn.isClosed() {
+								w.tr.emit(map[string]any{"ev": "api", "ep": e, "op": "connfail", "t": w.now()})
+								w.ep[e].conn.Close()
+								w.quiesce()
+							}
+						}
+						continue
+					}
+					if !c0 && !c1 && w.ep[0].a.getState() == established && w.ep[1].a.getState() == established && w.idle() {
+						break // nobody shut down (a behaviour prefix without a call): nothing more will happen
+					}
+					w.tick(5 * time.Second)
+				}
+				w.drainReads()
+				for ep := 0; ep < 2; ep++ {
+					for _, sid := range w.sortedSids(ep) {
+						w.read(ep, sid, 1<<17)
+					}
+				}
+				w.snapAll = true
+				w.quiesce()
+				if called {
+					w.tr.emit(map[string]any{"ev": "shutend", "who": 2, "t": w.now()})
+				}
+				w.finish(true)
+			})
+			if hung {
+				t.Fatalf("scenario %s hung", label)
+			}
+		}
+		vfWriteJSON(vfOut(fmt.Sprintf("sr-%d.json", shard)), map[string]any{"behaviours": k, "followed": followed, "drift": drifts})
 	}
 }
